@@ -576,7 +576,8 @@ class Bits:
 
     def _setfile(self, filename: str, length: Optional[int] = None, offset: Optional[int] = None) -> None:
         """Use file as source of bits."""
-        with open(pathlib.Path(filename), 'rb') as source:
+        # A file opened with a bytes path has a bytes name, which pathlib does not take.
+        with open(filename if isinstance(filename, bytes) else pathlib.Path(filename), 'rb') as source:
             if offset is None:
                 offset = 0
             try:
